@@ -183,7 +183,7 @@ class GroupRecord (object):
 
   @classmethod
   def unpack_new (cls, raw, offset=0):
-    t, auxlen, n, addr = struct.unpack_from("BBH4s", raw, offset)
+    t, auxlen, n, addr = struct.unpack_from("!BBH4s", raw, offset)
     offset += 1+1+2+4
     addr = IPAddr(addr)
     auxlen *= 4
@@ -199,7 +199,7 @@ class GroupRecord (object):
     return offset,r
 
   def pack (self):
-    o = struct.pack("BBH", self.type, len(self.aux) // 4,
+    o = struct.pack("!BBH", self.type, len(self.aux) // 4,
                     len(self.source_addresses))
     o += self.address.raw
     for sa in self.source_addresses:
